@@ -292,9 +292,14 @@ class Sym:
                 # search loop over a table written out in the source:  for types, convert in TABLE: if isinstance(v, types): return convert(v)
                 # is the sequence of its rounds, one per entry
                 okr = True
-                for elt in self._literal_table(s.iter):
+                table = self._literal_table(s.iter)
+                scope_env = dict(env)
+                if getattr(self, "_table_scope", None) is not None:
+                    for m_ in self._table_scope.methods.values():
+                        scope_env.setdefault(m_.name, ("func", m_.qual))
+                for elt in table:
                     e_i = dict(env)
-                    self._bind(s.target, self.expr(elt, env, depth), e_i)
+                    self._bind(s.target, self.expr(elt, scope_env, depth), e_i)
                     if not self._run(list(s.body), e_i, depth, collect, guard):
                         okr = False
                         break
@@ -328,17 +333,21 @@ class Sym:
                         if isinstance(b, ast.AugAssign) and isinstance(b.target, ast.Name) and isinstance(b.op, ast.Add):
                             effects.append(("add", b.target.id, self.expr(b.value, e3, depth), tuple(conds)))
                             continue
-                        if isinstance(b, ast.For) and not b.orelse and isinstance(b.target, ast.Name) and len(b.body) == 1 \
-                                and isinstance(b.body[0], ast.Expr) and isinstance(b.body[0].value, ast.Call):
-                            # inner loop that appends one item per element:  for y in ys: X.append(e)  ==  X.extend([e for y in ys])
-                            c2 = b.body[0].value
-                            if isinstance(c2.func, ast.Attribute) and isinstance(c2.func.value, ast.Name) and c2.func.value.id in env \
+                        if isinstance(b, ast.For) and not b.orelse and isinstance(b.target, ast.Name) and len(b.body) == 1:
+                            # inner loop that appends one item per (selected) element:
+                            #   for y in ys: [if c(y):] X.append(e)   ==   X.extend([e for y in ys [if c(y)]])
+                            inner, itest = b.body[0], None
+                            if isinstance(inner, ast.If) and not inner.orelse and len(inner.body) == 1:
+                                inner, itest = inner.body[0], inner.test
+                            c2 = inner.value if isinstance(inner, ast.Expr) and isinstance(inner.value, ast.Call) else None
+                            if c2 is not None and isinstance(c2.func, ast.Attribute) and isinstance(c2.func.value, ast.Name) and c2.func.value.id in env \
                                     and c2.func.attr == "append" and len(c2.args) == 1:
                                 it2 = self.expr(b.iter, e3, depth)
                                 bv2 = ("bv", self._fresh())
                                 e4 = dict(e3)
                                 e4[b.target.id] = bv2
-                                effects.append(("append", c2.func.value.id, ("splice", mkcomp("comp", self.expr(c2.args[0], e4, depth), bv2, it2, ())),
+                                conds2 = (self.expr(itest, e4, depth),) if itest is not None else ()
+                                effects.append(("append", c2.func.value.id, ("splice", mkcomp("comp", self.expr(c2.args[0], e4, depth), bv2, it2, conds2)),
                                                 tuple(conds)))
                                 continue
                             return False
@@ -489,6 +498,11 @@ class Sym:
         if base[0] == "call" and isinstance(base[1], str) and "." not in base[1]:
             r = self.prog.resolve_name(self.fi.module, base[1])
             node = r[1] if r and r[0] == "const" else None
+            if node is None:
+                # the record was built in an inlined helper of another module: a namedtuple of that name declared once in the package
+                decls = [m.assigns[base[1]] for m in self.prog.modules.values() if isinstance(m.assigns.get(base[1]), ast.Call)
+                         and (call_name(m.assigns[base[1]]) or "").split(".")[-1] == "namedtuple"]
+                node = decls[0] if len(decls) == 1 else None
             if isinstance(node, ast.Call) and (call_name(node) or "").split(".")[-1] == "namedtuple" and len(node.args) >= 2:
                 names = self.prog.try_fold(node.args[1], self.fi.module, default=None)
                 if isinstance(names, str):
@@ -514,6 +528,13 @@ class Sym:
         """entries (AST) of a tuple / list written out in the source: given directly or through a module-level name of this
         module that is assigned once; None otherwise or when it has more than 32 entries"""
         node = it
+        self._table_scope = None
+        if isinstance(it, ast.Attribute) and dotted(it.value) in ("self", "cls") and self.self_cls is not None:
+            # a table kept as a class attribute:  for a, b in self._RULES
+            found = self.prog.lookup(self.self_cls, it.attr)
+            if found and found[0] == "attr" and isinstance(found[2], (ast.Tuple, ast.List)):
+                node = found[2]
+                self._table_scope = found[1]          # names in the entries are names of that class body
         if isinstance(it, ast.Name):
             r = self.prog.resolve_name(self.fi.module, it.id)
             if not (r and r[0] == "const" and (len(r) < 3 or r[2] is self.fi.module)):
@@ -757,6 +778,21 @@ class Sym:
             for p_, a_ in zip(ps, args):
                 body = _subst(body, p_, a_)
             return body
+        if cn and self._ext_name(cn) in ("functools.partial", "partial") and args and args[0][0] == "func" and not kws and args[0][1] in prog.functions \
+                and self.inline and depth < MAX_INLINE:
+            # partial(f, a, b) is  lambda *rest: f(a, b, *rest)  with f's body in place
+            tgt = prog.functions[args[0][1]]
+            ps = [p for p in tgt.params if not (tgt.cls is not None and not tgt.is_static and p in ("self", "cls"))]
+            given = args[1:]
+            if len(given) <= len(ps) and not tgt.is_generator:
+                rest = ps[len(given):]
+                bound = dict(zip(ps, given))
+                bvs = tuple(("bv", self._fresh()) for _ in rest)
+                bound.update(dict(zip(rest, bvs)))
+                sub = Sym(prog, tgt, tgt.cls, self.inline, self.stack)
+                body = sub.function_value(bound, depth + 1)
+                if body[0] not in ("opaque", "loop", "mutated"):
+                    return ("fn", bvs, body)
         if cn == "sum" and len(args) >= 1 and args[0][0] == "comp":
             comp = args[0]
             start = args[1] if len(args) > 1 else ("const", 0)
@@ -787,6 +823,32 @@ class Sym:
                             v = self._inline(found[2], c, args, kws, depth, ci)
                             if v is not None:
                                 return v
+                    if base[0] == "new" and self.inline and depth < MAX_INLINE and base[1] in prog.classes and prog.classes[base[1]].name.startswith("_"):
+                        # method of a private helper object built on the spot:  _Helper(args).method(..)  -- the method's body with the
+                        # fields the constructor stores replaced by what it stores (public classes stay opaque method calls)
+                        ci = prog.classes[base[1]]
+                        found = prog.lookup(ci, c.func.attr)
+                        init = prog.lookup(ci, "__init__")
+                        if found and found[0] == "method" and not found[2].is_static and not found[2].is_generator and init and init[0] == "method":
+                            ini = init[2]
+                            ips = [p_ for p_ in ini.params if p_ not in ("self", "cls")]
+                            b_ = dict(zip(ips, base[2]))
+                            b_.update(dict(base[3]))
+                            for p_, d_ in ini.defaults.items():
+                                if p_ not in b_:
+                                    b_[p_] = Sym(prog, ini, ci).expr(d_, {}, depth + 1)
+                            fenv = Sym(prog, ini, ci, self.inline, self.stack).env_at_end(bound=b_)
+                            v = self._inline(found[2], c, args, kws, depth, ci)
+                            if v is not None:
+                                for k_, fv in fenv.items():
+                                    if k_.startswith("self.") and fv[0] not in ("loop", "mutated", "opaque", "filled"):
+                                        v = _subst(v, ("self", k_[5:]), fv)
+                                for y in collect(v, lambda y: isinstance(y, tuple) and len(y) == 2 and y[0] == "self"):
+                                    cv = prog.class_const(ci, y[1])
+                                    if cv is not None and isinstance(cv, (int, float, str, bytes, bool)):
+                                        v = _subst(v, y, ("const", cv))
+                                if not contains(v, lambda y: isinstance(y, tuple) and len(y) == 2 and y[0] == "self"):
+                                    return v
                     if base == ("param", "self") and self.origin_cls is not None and self.inline and depth < MAX_INLINE and self.fi.cls is None:
                         # a module helper that was handed the caller's `self`:  helper(self, ..) calling  obj.method()  on it
                         found = prog.lookup(self.origin_cls, c.func.attr)
@@ -810,7 +872,7 @@ class Sym:
                             v = self._inline(cands[0], c, args, kws, depth, cands[0].cls, self_value=base)
                             if v is not None:
                                 return v
-                    return ("method", c.func.attr, base, args, kws)
+                    return norm_star(("method", c.func.attr, base, args, kws))
         # package helper
         target = None
         tcls = None
@@ -830,9 +892,20 @@ class Sym:
                 return v
         if target is not None:
             return ("call", target.qual, args, kws)
+        if isinstance(c.func, ast.Name) and c.func.id in env and len(args) == 1 and not kws and isinstance(env[c.func.id], tuple) and len(env[c.func.id]) == 4 \
+                and env[c.func.id][0] == "call" and env[c.func.id][1] in ("operator.itemgetter", "itemgetter") and len(env[c.func.id][2]) == 1:
+            return ("sub", args[0], env[c.func.id][2][0])          # itemgetter(k)(x) is x[k]
         if isinstance(c.func, ast.Name) and c.func.id in env and env[c.func.id][0] == "func" and env[c.func.id][1] in prog.functions:
             # call of a package function held in a local (e.g. taken from a table entry)
             tgt = prog.functions[env[c.func.id][1]]
+            if tgt.cls is not None and not tgt.is_static and args and args[0] in (("param", "self"), ("name", "self")):
+                # a method taken from the class body and called with self passed explicitly:  rule(self, x)
+                args = args[1:]
+                if self.inline and depth < MAX_INLINE:
+                    v = self._inline(tgt, c, args, kws, depth, self.self_cls or tgt.cls)
+                    if v is not None:
+                        return v
+                return ("call", tgt.qual, args, kws)
             if self.inline and depth < MAX_INLINE:
                 v = self._inline(tgt, c, args, kws, depth, None)
                 if v is not None:
@@ -968,6 +1041,48 @@ def mkcomp(tag, elt, bv, it, conds):
         _t, ielt, ibv, iit, iconds = it
         return mkcomp(tag, _subst(elt, bv, ielt), ibv, iit, tuple(iconds) + tuple(_subst(c, bv, ielt) for c in conds))
     return (tag, elt, bv, it, conds)
+
+
+def _expand_star(v):
+    """the sequence a starred argument spreads, as a literal list when it can be written out: a literal, a comprehension over a
+    literal tuple; a conditional between such sequences stays a conditional"""
+    if not (isinstance(v, tuple) and v):
+        return None
+    if v[0] in ("list", "tuple") and not any(isinstance(e, tuple) and e and e[0] == "splice" for e in v[1]):
+        return ("list", tuple(v[1]))
+    if v[0] == "phi":
+        a, b = _expand_star(v[2]), _expand_star(v[3])
+        return ("phi", v[1], a, b) if a is not None and b is not None else None
+    if v[0] == "comp" and not v[4]:
+        src = v[3]
+        if src[0] in ("tuple", "list") and len(src[1]) <= 8 and not any(isinstance(e, tuple) and e and e[0] == "splice" for e in src[1]):
+            return ("list", tuple(_subst(v[1], v[2], e) for e in src[1]))
+        if src[0] == "phi":
+            a = _expand_star(("comp", v[1], v[2], src[2], ()))
+            b = _expand_star(("comp", v[1], v[2], src[3], ()))
+            return ("phi", src[1], a, b) if a is not None and b is not None else None
+    return None
+
+
+def norm_star(term):
+    """f(*seq) with a sequence that can be written out is f(a, b, ..); a conditional sequence gives a conditional call"""
+    if not (isinstance(term, tuple) and term and term[0] in ("method", "call")):
+        return term
+    ai = 3 if term[0] == "method" else 2
+    args = term[ai]
+    for i, a in enumerate(args):
+        if isinstance(a, tuple) and len(a) == 2 and a[0] == "star":
+            seq = _expand_star(a[1])
+            if seq is None:
+                return term
+
+            def build(sq):
+                if sq[0] == "phi":
+                    return mkphi(sq[1], build(sq[2]), build(sq[3]))
+                new_args = tuple(args[:i]) + tuple(sq[1]) + tuple(args[i + 1:])
+                return norm_star(term[:ai] + (new_args,) + term[ai + 1:])
+            return build(seq)
+    return term
 
 
 def mktry(a, exc, b):
